@@ -292,6 +292,41 @@ func (p *Project) addShapes(r *rand.Rand) {
 		p.ExtraOld["pkg/l0/zz_asset.go"] = asset(1)
 		p.ExtraNew["pkg/l0/zz_asset.go"] = asset(2)
 	}
+	// a Go file renamed between the revisions with an edit that removes several lines and changes
+	// one (similar enough for rename detection where the diff stage uses it)
+	if r.Intn(2) == 0 {
+		moved := func(old bool) string {
+			var b strings.Builder
+			b.WriteString("package l0\n\n// Moved lives in a file that is renamed between the revisions.\nfunc Moved(a int) int {\n")
+			for k := 1; k <= 14; k++ {
+				if !old && k >= 5 && k <= 9 {
+					continue
+				}
+				if !old && k == 11 {
+					b.WriteString("\ta -= 11\n")
+					continue
+				}
+				fmt.Fprintf(&b, "\ta += %d\n", k)
+			}
+			b.WriteString("\treturn a\n}\n")
+			return b.String()
+		}
+		p.ExtraOld["pkg/l0/moved_from.go"] = moved(true)
+		p.ExtraNew["pkg/l0/moved_to.go"] = moved(false)
+	}
+	// an unchanged nested module and a changed sibling package whose directory name merely starts
+	// with the module directory's name (string prefix, not path prefix)
+	if r.Intn(2) == 0 {
+		p.ExtraOld["plugin/go.mod"] = "module example.com/plugin\n\ngo 1.23\n"
+		p.ExtraNew["plugin/go.mod"] = p.ExtraOld["plugin/go.mod"]
+		p.ExtraOld["plugin/p.go"] = "package plugin\n\n// P is in a nested module.\nfunc P(a int) int {\n\ta++\n\treturn a\n}\n"
+		p.ExtraNew["plugin/p.go"] = p.ExtraOld["plugin/p.go"]
+		api := func(k int) string {
+			return fmt.Sprintf("package pluginapi\n\n// API is a sibling of the nested module.\nfunc API(a int) int {\n\ta += %d\n\treturn a\n}\n", k)
+		}
+		p.ExtraOld["pluginapi/api.go"] = api(1)
+		p.ExtraNew["pluginapi/api.go"] = api(2)
+	}
 	hello := func(k int) string {
 		return fmt.Sprintf("package hello\n\n// Hello is example code.\nfunc Hello(a int) int {\n\ta += %d\n\treturn a\n}\n", k)
 	}
